@@ -144,6 +144,7 @@ FIX_COMMITS = [
     'f08ac32 fix: a file directly under the root has the directory "/", not "//"',
     'e7d12cb fix: check the first character of each capability clause, not of the whole text',
     '48abf43 fix: signature_key_ids checks the issuer count of each signature, not of the accumulated list',
+    '441ec8f fix: extraction stays inside the target directory and rejects unknown file types',
 ]
 
 PROPS['C06'] = dict(
@@ -199,8 +200,18 @@ PROPS['C19'] = dict(
     explanation='Verbatim bodies of validate_caps_text, validate_suffix, FileCaps::new and FileCaps::from_str. validate_suffix(s) is Ok iff every character of s is an operator or a flag and no two operators are adjacent; validate_caps_text(s) is Ok iff trimmed(s) is non-empty and clause_ok holds for every token, where clause_ok is written from the statement (first operator position, name list before it unless the clause starts with "=", suffix after it). On the tree before e7d12cb both directions fail: "=e +p" was accepted and "cap_chown=e =p" rejected.',
     technique='contract-based deductive verification (Verus) of the capability-text validators against a clause grammar written from the statement, std str functions under assumed contracts',
 )
+PROPS['C12'] = dict(
+    level='proof', verus=['c12_extract'],
+    trusted_base=[A_TOOLS, A_EXTRACT,
+                  'A-FS: a std::fs operation at a path that is the (freshly created) target followed by normal components only, none of whose prefixes is a symbolic link, takes effect inside the target - the operating system, no concurrent process interfering; std::fs and std::path calls themselves do not panic',
+                  'A-PATH-COMP: std::path as component sequences: Path::components yields the components, PathBuf::push of a normal name appends it, Path::join appends a relative path (and REPLACES the base when given an absolute one: stated only for the all-normal case), Path::starts_with is the component-wise prefix test'],
+    assumptions=['PARTIAL: decided is the SECOND sentence - for every package, hostile ones included (directory names, file paths, modes and link targets are arbitrary values here), every file-system operation of extract other than creating the target itself happens at target + normal components, never at or below a symbolic link this extraction has created (the program keeps a list of them, and the list is proved to cover every symlink call); paths with "..", a second root or a prefix component and unknown file types are errors; no panic (the former unreachable!() is gone). NOT decided: the FIRST sentence (every file, directory and link is created with the archived content, permission bits and target: file-system EFFECTS are not modelled), and what Package::files() yields (C07)',
+                 'R38: each fs call is rewritten to carry two ghost arguments, the target and the sequence of symlink paths created so far (a ghost variable updated right after the symlink call); the containment requirement is the precondition of the stand-in',
+                 'the error path text is an arbitrary String (R12)'],
+    explanation='Verbatim bodies of Package::extract and relative_to_root. relative_to_root returns Ok exactly when every component is the root, "." or a normal name, and then a path of normal components only; extract joins the target with such a path (so join cannot replace the target), refuses any path at or below one of the links it has created, and only then calls create_dir_all / File::create / set_permissions / remove_file / symlink - each of which REQUIRES inside(target, created links, path). Loop invariant: the list of links the program keeps covers every symbolic link created.',
+    technique='contract-based deductive verification (Verus): containment as the precondition of every std::fs stand-in, over a component-sequence model of std::path',
+)
 NOT_APPLICABLE = {
-    'C12': 'about file-system effects (create_dir_all, File::create following symlinks, symlink): both verifiers treat std::fs as unsupported foreign calls and have no file-system model',
 }
 # properties not yet wired up are listed as not applicable until their check exists (kept current)
 for _pid, _why in {
